@@ -137,11 +137,12 @@ static void judge(dfs_t* D, const xres* x) {
     if (x->status == SCH_TOO_MANY_POINTS) mc_harness_error("%s: %s", scn_desc(s), x->msg);
     bool bad = x->status != SCH_OK || x->outcome != D->expected; if (!bad) return;
     /* the same schedule must fail again, twice.  A replay that fails with ANOTHER wrong outcome is still a failure of the implementation (its output
-     * depends on memory it never wrote); a replay that passes means the harness does not control the execution, which is an error of the harness */
+     * depends on memory it never wrote); a replay that passes is reported as a violation of its own kind (the schedule itself is replayed exactly, so the run depends on memory the library never wrote or had freed) */
     bool unstable = false;
     for (int rep = 0; rep < 2; rep++) { uint8_t* ch = malloc((size_t)x->npoints + 1); for (int i = 0; i < x->npoints; i++) ch[i] = x->pt[i].chosen; run_exec(s, ch, x->npoints, 0, 0); N_EXEC--; N_REPLAY_CHECKS++; free(ch);
         bool bad2 = TR->status != SCH_OK || TR->outcome != D->expected;
-        if (!bad2) mc_harness_error("%s sched=%s: a failing schedule passed when replayed — uncontrolled nondeterminism", scn_desc(s), sched_string_x(x));
+        if (!bad2) { snprintf(key, sizeof key, "not-reproducible.%s.%s", area, MODE_N[s->mode]);      /* the schedule is replayed exactly (a divergence would have been reported above), so what differs is memory the library never wrote or had already freed */
+            mc_fail(key, "%s sched=%s racy=%s: failed (status %d %s, got [%s]) and then passed when the same schedule was replayed: the execution depends on something outside the schedule (uninitialised or freed memory); the single-threaded run gives [%s]", scn_desc(s), sched_string_x(x), racy_string(), x->status, x->msg, x->detail, D->expected_detail); return; }
         if (TR->status != x->status || TR->outcome != x->outcome) unstable = true; }
     const char* ss = sched_string_x(x);
     if (x->status == SCH_DEADLOCK) snprintf(key, sizeof key, "deadlock.%s.%s", area, MODE_N[s->mode]);
